@@ -577,7 +577,7 @@ def run(ctx):
                     ctx.count("unmutated_loads_" + r)
                     if r != "ok":
                         ctx.inconclusive("unmutated seed %s did not load (%s)" % (s.label, r))
-        n_cases = ctx.pick(2000, 16000)
+        n_cases = ctx.pick(2000, 12000)
         deadline = ctx.deadline(150, 1100)
         sampled = {}
         for i in range(n_cases):
